@@ -14,6 +14,8 @@ import (
 	"strings"
 	"sync"
 
+	fflate "github.com/intel/fastgo/compress/flate"
+	fgzip "github.com/intel/fastgo/compress/gzip"
 	"github.com/intel/fastgo/internal/verifsnap"
 	"github.com/intel/fastgo/verif/env"
 	"github.com/intel/fastgo/verif/introspect"
@@ -31,7 +33,7 @@ func init() {
 	register(&Prop{
 		ID:       "C17",
 		Category: "model_checking",
-		Rule: "(a) scenarios of 3 threads (real goroutines under a hand-off scheduler) x 3 operations each (4 in the thorough tier: 34650 interleavings per scenario) on DISTINCT instances chosen to touch the same package-level tables (fixed-Huffman and dynamic decodes, level-1 / level-2 / Huffman-only compression, 4 KiB window, gzip, zlib with dictionary, a Writer closed, Reset and reused next to Writers constructed after its Close): ALL interleavings of the operations (1680 per scenario) at every acceleration level; oracle: every instance's bytes and errors equal its solo run; " +
+		Rule: "(a) scenarios of 3 threads (real goroutines under a hand-off scheduler) x 3 operations each (4 in the thorough tier: 34650 interleavings per scenario) on DISTINCT instances chosen to touch the same package-level tables (fixed-Huffman and dynamic decodes, level-1 / level-2 / Huffman-only compression, 4 KiB window, gzip, zlib with dictionary, a Writer closed, Reset and reused next to Writers constructed after its Close, a flate and a gzip Reader closed, Reset and reused next to Readers constructed after their Close): ALL interleavings of the operations (1680 per scenario) at every acceleration level; oracle: every instance's bytes and errors equal its solo run; " +
 			"(b) global-state invariant in every explored state: a snapshot over EVERY package-level variable of the six fastgo packages (registration code generated from /repo's current sources with go/parser, injected with go build -overlay) is unchanged since initialisation (the baseline is taken after one solo warm-up run of every instance, so tables built lazily on first use do not count); " +
 			"(c) complement, sampling not enumeration: the same bodies free-running under the race detector, 16 goroutines x rounds x GOMAXPROCS {1,2,16}; non-trivial = every execution (each has 9 operations on 3 instances)",
 		Assumptions: []string{"scheduling points are the API calls: fastgo has no locks, channels or atomics, so interleavings inside a call are covered only by the global-state invariant and the sampled race pass",
@@ -199,6 +201,68 @@ func c17Reader(k RK, name string, stream []byte) *c17inst {
 	return in
 }
 
+// c17ReusedReader: op0 = construct on stream A, read 100 bytes, Close; op1 = Reset onto stream B, read 5000;
+// op2 (op3) = read the rest. The pooled-Reader pattern next to Readers constructed after its Close.
+func c17ReusedReader(gz bool, name string, streamA, streamB []byte) *c17inst {
+	var r io.Reader
+	var out []byte
+	var errs []string
+	kind := "flate"
+	if gz {
+		kind = "gzip"
+	}
+	in := &c17inst{name: "Rreused:" + kind + ":" + name}
+	read := func(n int) {
+		if r == nil {
+			return
+		}
+		buf := make([]byte, n)
+		m, err := io.ReadFull(r, buf)
+		out = append(out, buf[:m]...)
+		errs = append(errs, errClass(err))
+	}
+	rest := func() {
+		if r != nil {
+			b, err := io.ReadAll(r)
+			out = append(out, b...)
+			errs = append(errs, errClass(err))
+		}
+	}
+	in.ops = []func(){
+		func() {
+			var err error
+			r, err = RK{Kind: kind}.OpenFast(bytes.NewReader(streamA))
+			errs = append(errs, errClass(err))
+			read(100)
+			if c, ok := r.(io.Closer); ok {
+				errs = append(errs, nilness(c.Close()))
+			}
+		},
+		func() {
+			if r == nil {
+				return
+			}
+			var err error
+			if gz {
+				err = r.(*fgzip.Reader).Reset(bytes.NewReader(streamB))
+			} else {
+				err = r.(fflate.Resetter).Reset(bytes.NewReader(streamB), nil)
+			}
+			errs = append(errs, errClass(err))
+			read(5000)
+		},
+		rest,
+	}
+	if c17FourOps {
+		in.ops[2] = func() { read(7000) }
+		in.ops = append(in.ops, rest)
+	}
+	in.digest = func() string {
+		return fmt.Sprintf("%d:%016x:%s", len(out), introspect.Bytes2(out), strings.Join(errs, ","))
+	}
+	return in
+}
+
 type c17data struct {
 	text70, r370, rand66 []byte
 	fixedA, fixedB, dyn  []byte
@@ -236,6 +300,11 @@ func c17Scenario(id int, d *c17data) []*c17inst {
 		return []*c17inst{c17Writer(WK{Kind: "flate4k", Level: 2}, d.text70[:20000], d.r370[:20000]), c17Reader(RK{Kind: "zlib", Dict: dict20}, "dict", d.zdict), c17Reader(RK{Kind: "gzip", Multi: true}, "two-members", d.gz2)}
 	case 3:
 		return []*c17inst{c17Writer(WK{Kind: "flate", Level: 1}, d.text70, d.text70[:10000]), c17Writer(WK{Kind: "flate", Level: 1}, d.r370, d.r370[:10000]), c17Reader(RK{Kind: "flate"}, "std70", d.std70)}
+	case 5:
+		// a Reader that is closed, Reset and used again next to Readers constructed after its Close
+		return []*c17inst{c17ReusedReader(false, "fixedA-then-dyn70K", d.fixedA, d.dyn), c17Reader(RK{Kind: "flate"}, "std70", d.std70), c17Reader(RK{Kind: "gzip", Multi: true}, "two-members", d.gz2)}
+	case 6:
+		return []*c17inst{c17ReusedReader(true, "two-members-twice", d.gz2, d.gz2), c17Reader(RK{Kind: "flate"}, "fixedB", d.fixedB), c17Reader(RK{Kind: "flate"}, "dyn70K", d.dyn)}
 	default:
 		// a Writer that is closed, Reset and used again next to Writers constructed after its Close (resources handed
 		// back at Close must not be shared with the Writers that pick them up)
@@ -244,7 +313,7 @@ func c17Scenario(id int, d *c17data) []*c17inst {
 	}
 }
 
-const c17Scenarios = 5
+const c17Scenarios = 7
 
 func snapDiff(a, b map[string]uint64) string {
 	var out []string
